@@ -657,6 +657,8 @@ LEN = {
     "std::collections::BTreeMap::<K, V, A>::len",
 }
 
+IS_EMPTY = set(p[: -len("len")] + "is_empty" for p in LEN)
+
 INLINE_DEPTH = 6
 _inline_stack = []
 
@@ -691,10 +693,14 @@ def model_call(crate, fn, args, site, term=None):
         return mk_proj(mk_proj(args[0], ("dc", "Ok")), ("f", 0, "0"))
     if path in LEN and args:
         return ("len", args[0])
+    if path in IS_EMPTY and args:
+        return ("bin", "Eq", ("len", args[0]), ("const", "int", 0))
     if path == "std::iter::Iterator::next" and args:
         it = args[0]
         if it[0] == "enumerate":
             return ("opt", ("enumelem", it[1]))
+        if it[0] == "agg" and it[1] == "array" and it[2] != "repeat" and len(it[3]) == 1:
+            return ("opt", it[3][0])  # the only element of a one-element list (vec![x])
         return ("opt", ("elem", it))
     if path == "std::iter::Iterator::enumerate" and args:
         return ("enumerate", args[0])
@@ -706,6 +712,8 @@ def model_call(crate, fn, args, site, term=None):
     if path in ("std::cmp::PartialEq::eq", "std::cmp::PartialEq::ne") and len(args) == 2:
         v = ("bin", "Eq", args[0], args[1])
         return v if path.endswith("::eq") else ("un", "Not", v)
+    if path in ("core::slice::<impl [T]>::first", "std::slice::<impl [T]>::first") and len(args) == 1:
+        return ("call", "core::slice::<impl [T]>::get", (args[0], ("const", "int", 0)), site)  # x.first() is x.get(0)
     if path == "core::str::<impl str>::parse" and fn.get("gargs"):
         # the target type decides which literals parse: keep it in the callee's name
         return ("call", "core::str::<impl str>::parse::<%s>" % fn["gargs"][-1], args, site)
@@ -1034,11 +1042,23 @@ def switch_atom(body, sw, labels):
         explicit = set(l for l in allv if l != "else")
         pos = set()
         neg = None
+        # two-variant types (Option, Result, ..): `is None` and `is not Some` are the same test; one canonical variant is used for both
+        canon = other = None
+        if adt and len(adt["variants"]) == 2:
+            vn = [v["name"] for v in adt["variants"]]
+            if sorted(vn) in (["None", "Some"], ["Err", "Ok"]):  # Option / Result only: other two-variant types are named in the specs as written
+                canon = "Some" if "Some" in vn else "Ok"
+                other = [x for x in vn if x != canon][0]
         if "else" in labels:
             # complement of the explicit labels not taken
             neg = sorted(names.get(x, str(x)) for x in (explicit - set(labels)))
+            if canon is not None and neg == [other]:
+                return ("isin", d[1], (canon,))
             return ("isnot", d[1], tuple(neg), tuple(sorted(names.get(x, str(x)) for x in labels if x != "else")))
-        return ("isin", d[1], tuple(sorted(names.get(x, str(x)) for x in labels)))
+        pos = tuple(sorted(names.get(x, str(x)) for x in labels))
+        if canon is not None and pos == (other,):
+            return ("isnot", d[1], (canon,), ())
+        return ("isin", d[1], pos)
     # boolean / integer switch
     if t["dty"] == "bool":
         # labels: 0 -> false ; else -> true
@@ -1070,4 +1090,8 @@ def block_guard_atoms(body, bb):
 
 
 def load_crates(facts):
-    return {k: Crate(v) for k, v in facts.items()}
+    import os
+    if os.environ.get("VERIF_NO_PREP"):
+        return {k: Crate(v) for k, v in facts.items()}
+    import prep
+    return {k: Crate(prep.preprocess(v)) for k, v in facts.items()}
